@@ -26,6 +26,7 @@ type clientModel struct {
 	NextTimeout                                   *ssa.Function
 	Waiter                                        *types.Named // callbackWaitHandler
 	missing                                       []string
+	soft                                          []string // anchors only C11 needs
 }
 
 func isNamedIface(t types.Type, pkgPath, name string) bool { return isNamedType(t, pkgPath, name) }
@@ -78,7 +79,10 @@ func resolveClient(p *Prog) *clientModel {
 	m.TxStart = RoleField(m.TX, "start", func(t types.Type) bool { return isNamedType(t, "time", "Time") })
 	m.TxRTO = RoleField(m.TX, "rto", func(t types.Type) bool { return isNamedType(t, "time", "Duration") })
 	m.TxRaw = RoleField(m.TX, "raw", func(t types.Type) bool { _, ok := t.Underlying().(*types.Slice); return ok })
-	for n, v := range map[string]*types.Var{"clientTransaction.id": m.TxID, "clientTransaction.attempt": m.TxAttempt, "clientTransaction.calls": m.TxCalls, "clientTransaction.h": m.TxH, "clientTransaction.rto": m.TxRTO, "clientTransaction.raw": m.TxRaw} {
+	if m.TxRTO == nil {
+		m.soft = append(m.soft, "clientTransaction.rto")
+	}
+	for n, v := range map[string]*types.Var{"clientTransaction.id": m.TxID, "clientTransaction.attempt": m.TxAttempt, "clientTransaction.calls": m.TxCalls, "clientTransaction.h": m.TxH, "clientTransaction.raw": m.TxRaw} {
 		if v == nil {
 			miss(n)
 		}
@@ -134,7 +138,7 @@ func resolveClient(p *Prog) *clientModel {
 			if len(f.Params) == 2 && isNamedType(f.Params[1].Type(), modulePath, "Event") {
 				m.Handle = f
 			}
-			if len(f.Params) == 2 && isNamedType(f.Params[1].Type(), "time", "Time") {
+			if len(f.Params) >= 2 && isNamedType(f.Params[1].Type(), "time", "Time") && f.Signature.Results().Len() == 1 && isNamedType(f.Signature.Results().At(0).Type(), "time", "Time") {
 				m.NextTimeout = f
 			}
 		}
@@ -143,7 +147,9 @@ func resolveClient(p *Prog) *clientModel {
 	need(m.Reg, "client registration function (inserts into the table)")
 	need(m.Del, "client delete function")
 	need(m.Handle, "(*clientTransaction).handle")
-	need(m.NextTimeout, "(*clientTransaction).nextTimeout")
+	if m.NextTimeout == nil {
+		m.soft = append(m.soft, "(*clientTransaction).nextTimeout")
+	}
 	// reader: the go target in NewClient
 	if m.NewClient != nil {
 		eachInstr(m.NewClient, func(b *ssa.BasicBlock, i int, in ssa.Instruction) {
